@@ -140,7 +140,8 @@ func init() {
 	extraRules["__ro_c08"] = roTargetsFor("sign/eddsa.", "sign/schnorr.", "sign/anon.Verify", "sign/anon.Sign")
 	// ciphertexts, keys and messages are inputs only: a decryptor that writes into its ciphertext can
 	// make its own integrity comparison vacuous (anon header) or break a second decryption
-	extraRules["C16"] = roTargetsFor("encrypt/ecies.", "encrypt/ibe.", "sign/anon.Encrypt", "sign/anon.Decrypt")
+	extraRules["C16"] = both(roTargetsFor("encrypt/ecies.", "encrypt/ibe.", "sign/anon.Encrypt", "sign/anon.Decrypt"),
+		func(c *Ctx) { LenGuard(c, "default", []string{"encrypt", "sign/anon"}) }, fresh("encrypt/", "sign/anon."))
 	extraRules["C08"] = both(stale("sign/schnorr", "sign/eddsa", "sign/anon"), entropyRule("C08"),
 		func(c *Ctx) { extraRules["__ro_c08"](c) }, fresh("sign/eddsa.", "sign/schnorr.", "sign/anon."), ptreq("sign/eddsa", "sign/schnorr", "sign/anon"))
 	extraRules["__fresh_c03"] = fresh("MarshalBinary", "Clone", ".Data", ".String", "util/encoding.")
@@ -185,6 +186,7 @@ func init() {
 		PairedUpdates(c, "default")
 		CheckMustWrite(c, "C09")
 		AccGate(c, "default", "C09")
+		LenGuard(c, "default", []string{"sign/bls", "sign/tbls", "sign/bdn", "sign/cosi"})
 		fresh("sign/bls.", "sign/tbls.", "sign/bdn.", "sign/cosi.")(c)
 		ptreq("sign/bls", "sign/tbls", "sign/bdn", "sign/cosi")(c)
 	}
@@ -194,8 +196,17 @@ func init() {
 		ErrDrop(c, "default", []string{"group", "pairing", "sign", "share", "proof", "shuffle", "encrypt", "internal", "util/encoding"})
 		LenGuard(c, "default", []string{"group", "pairing", "sign", "share", "proof", "shuffle", "encrypt", "internal", "util/encoding"})
 	}
-	extraRules["C10"] = func(c *Ctx) { WriterDiscipline(c, "default", "C10"); CheckMustWrite(c, "C10") }
-	extraRules["C11"] = func(c *Ctx) { WriterDiscipline(c, "default", "C11"); CheckMustWrite(c, "C11") }
+	extraRules["C10"] = func(c *Ctx) {
+		WriterDiscipline(c, "default", "C10")
+		CheckMustWrite(c, "C10")
+		LoopShare(c, "default", []string{"share/vss/pedersen", "share/vss/rabin"})
+		fresh("share/vss/")(c)
+	}
+	extraRules["C11"] = func(c *Ctx) {
+		WriterDiscipline(c, "default", "C11")
+		CheckMustWrite(c, "C11")
+		LoopShare(c, "default", []string{"share/dkg/pedersen", "share/dkg/rabin"})
+	}
 	extraRules["C12"] = func(c *Ctx) { WriterDiscipline(c, "default", "C12"); CheckMustWrite(c, "C12"); AccGate(c, "default", "C12") }
 }
 
